@@ -25,6 +25,7 @@ def _digests(spec_for, props, n, jobs, tier="quick"):
             if o.get("ok"):
                 r = o["result"]
                 out["%s/%d" % (prop, a[1])] = r.get("digest")
+                out["hi:%s/%d" % (prop, a[1])] = r.get("digest_hi", r.get("digest"))
             else:
                 out["%s/%d" % (prop, a[1])] = "ERROR " + o.get("error", "")[-300:]
 
@@ -69,11 +70,13 @@ def main(args, spec_for):
         if str(a[k]).startswith("ERROR"):
             print("run error", k, a[k])
             bad += 1
+        if k.startswith("hi:"):
+            if a[k] != c.get(k):
+                print("NONDETERMINISTIC (PYTHONHASHSEED 0 vs 12345):", k, a[k], c.get(k))
+                bad += 1
+            continue
         if a[k] != b.get(k):
             print("NONDETERMINISTIC (same hash seed, 16 vs 4 workers):", k, a[k], b.get(k))
-            bad += 1
-        if a[k] != c.get(k):
-            print("NONDETERMINISTIC (PYTHONHASHSEED 0 vs 12345):", k, a[k], c.get(k))
             bad += 1
     print("determinism: %d runs x 3 executions, %d mismatches" % (len(a), bad))
     if not c:
